@@ -212,10 +212,10 @@ def main(argv: T.List[str]) -> int:
             else:
                 new.append(f)
         selftest = None
-        if args.tier == "thorough" and not args.json and hasattr(mod, "SELFTEST") and args.repo == "/repo" or \
-                (args.tier == "thorough" and os.environ.get("VERIF_FORCE_SELFTEST")):
+        if args.tier == "thorough" and not args.json and not os.environ.get("VERIF_NO_SELFTEST"):
             from . import selftest as st
             selftest = st.run_for(prop, args.repo)
+            selftest = {k: v for k, v in selftest.items() if k != "results"} | {"entries": [f"{r['kind']}: {r['name']} -> {r['status']}" for r in selftest["results"]]}
         if args.json:
             print(json.dumps({"findings": [f.to_json() for f in ctx.findings]}))
             return 1 if new else 0
